@@ -127,3 +127,8 @@ def retry_unit(ctx):
     ctx.check("wrapper/returns:is-last-attempt's-result", bool(g.last[1] is r))
     ctx.check("wrapper/returns:at-most-attempts", z3.And(g.calls >= 1, g.calls <= n))
     return "returns"
+
+
+from .sysprobe import replay_for as _replay_for  # noqa: E402
+
+REPLAYS = [("retry.*", _replay_for(['C10', 'C04'], 1500))]
